@@ -30,7 +30,59 @@ func (e *Engine) newCtx(fi *FuncInfo, ct *Contract) *FnCtx {
 		Trusted: map[string]bool{}, safeN: map[string]int{}, paramVals: map[string]Val{}, globalsBusy: map[types.Object]bool{},
 		callN: map[string]int{}, recFns: map[string]bool{}, recInfos: map[string]*recInfo{}, siteN: map[string]int{}}
 	c.frames = []*inlineFrame{{fn: fi, pkg: fi.Pkg, tsubst: map[*types.TypeParam]types.Type{}}}
+	c.objTy = e.contractUsesLive(ct)
+	c.Monitored = map[string]bool{}
 	return c
+}
+
+// contractUsesLive: does the contract (or a spec function it names, transitively) speak about
+// object types through live()?  Only then are allocations recorded in the object-type map;
+// for every other function the map would be dead weight in each query.
+func (e *Engine) contractUsesLive(ct *Contract) bool {
+	if ct == nil {
+		return false
+	}
+	if e.liveFns == nil {
+		e.liveFns = map[string]bool{}
+		for changed := true; changed; {
+			changed = false
+			for name, sf := range e.SpecFns {
+				if e.liveFns[name] {
+					continue
+				}
+				if strings.Contains(sf.Src, "live(") || mentionsAny(sf.Src, e.liveFns) {
+					e.liveFns[name] = true
+					changed = true
+				}
+			}
+		}
+	}
+	srcs := []string{}
+	add := func(cls []Clause) {
+		for _, cl := range cls {
+			srcs = append(srcs, cl.Src)
+		}
+	}
+	add(ct.Requires)
+	add(ct.Ensures)
+	for _, l := range ct.Loops {
+		add(l.Invariants)
+	}
+	for _, s := range srcs {
+		if strings.Contains(s, "live(") || mentionsAny(s, e.liveFns) {
+			return true
+		}
+	}
+	return false
+}
+
+func mentionsAny(src string, names map[string]bool) bool {
+	for n := range names {
+		if strings.Contains(src, n+"(") {
+			return true
+		}
+	}
+	return false
 }
 
 // VerifyFunc generates the obligations of one function under contract.
